@@ -133,6 +133,19 @@ def build(case, rng=None):
             addr += len(contents)
         bu.intervals.append(ivl)
 
+    # CFI directives given per block as {boundary index: [[name, args, sym]]}
+    NULLU = uuidlib.UUID(int=0)
+    cfi = m.aux_data["cfiDirectives"].data
+    for bid, info in lst.block_info.items():
+        spec = info["blk"].get("cfi")
+        if not spec:
+            continue
+        offs = lst.item_offsets(bid)
+        for k, ds in spec.items():
+            cfi[gtirb.Offset(bu.blocks[bid], offs[int(k)])] = [
+                (d[0], list(d[1]),
+                 bu.symbols[d[2]] if d[2] else NULLU) for d in ds]
+
     for bi, t in pending_exprs:
         off, size = t.sym
         attrs = set()
